@@ -10,7 +10,7 @@ import (
 
 // FaultKinds lists the stored-data fault catalogue.
 var FaultKinds = []string{"truncate", "bitflip", "byte-set", "field16-set", "field32-set", "zero-sector", "dup-sector",
-	"swap-sectors", "torn-overwrite", "garbage-tail", "random-sector", "field16-nudge", "byte-nudge", "length32", "length16"}
+	"swap-sectors", "torn-overwrite", "garbage-tail", "random-sector", "field16-nudge", "byte-nudge", "length32", "length16", "word-copy"}
 
 // Fault describes one applied stored-data fault.
 type Fault struct {
@@ -61,7 +61,7 @@ func Corrupt(t *tape.Tape, data []byte, lo, hi int, other []byte) ([]byte, Fault
 		}
 		return p
 	}
-	kind := t.Weighted(2, 6, 4, 8, 4, 2, 2, 2, 2, 1, 2, 6, 5, 5, 5)
+	kind := t.Weighted(2, 6, 4, 8, 4, 2, 2, 2, 2, 1, 2, 6, 5, 5, 5, 5)
 	switch kind {
 	case 0:
 		k := pos(1)
@@ -186,6 +186,20 @@ func Corrupt(t *tape.Tape, data []byte, lo, hi int, other []byte) ([]byte, Fault
 		nv := []uint16{0xFFFF, 0xFFFF - uint16(t.Draw(16)), 0x7FFF, uint16(len(out)), uint16(len(out)) + 1, v + 1, v - 1, 0x8000, v * 2}[t.Draw(9)]
 		binary.BigEndian.PutUint16(out[p:], nv)
 		return out, Fault{Kind: "length16", Off: p, Len: 2, Note: fmt.Sprintf("%#x->%#x", v, nv)}
+	case 15:
+		// a small misdirected write: a 16-bit word is overwritten with the
+		// word stored 1..3 words before or after it
+		p := pos(2)
+		d := 2 * (1 + t.Draw(3))
+		if t.Chance(1, 2) {
+			d = -d
+		}
+		q := p + d
+		if p+2 > len(out) || q < 0 || q+2 > len(out) {
+			return out, Fault{Kind: "none"}
+		}
+		copy(out[p:p+2], data[q:q+2])
+		return out, Fault{Kind: "word-copy", Off: p, Len: 2, Note: fmt.Sprintf("from %d", q)}
 	case 12:
 		p := pos(1)
 		v := out[p]
